@@ -195,3 +195,18 @@ pub fn cap_memory(bytes: u64) {
         libc::setrlimit(libc::RLIMIT_AS, &lim);
     }
 }
+
+/// A lazily zeroed buffer of `len` bytes straight from the kernel (anonymous private mapping, no reservation):
+/// pages become resident only when touched, so a 4 GiB input costs nothing until a parser walks it.
+/// Leaked on purpose (lives until the process ends). None if the mapping is refused.
+pub fn big_zero(len: usize) -> Option<&'static mut [u8]> {
+    // SAFETY: a fresh anonymous mapping of `len` readable and writable bytes, owned by nobody else and never unmapped
+    unsafe {
+        let p = libc::mmap(std::ptr::null_mut(), len, libc::PROT_READ | libc::PROT_WRITE, libc::MAP_PRIVATE | libc::MAP_ANONYMOUS | libc::MAP_NORESERVE, -1, 0);
+        if p == libc::MAP_FAILED {
+            None
+        } else {
+            Some(std::slice::from_raw_parts_mut(p as *mut u8, len))
+        }
+    }
+}
